@@ -15,10 +15,11 @@ Commands
 * `c07.table <options> | <skeleton>`                → model only: `raises=…|rows=…|map=…|valid=…|cond=…|idtopo=…|histvalid=…|wf=…` (`hist…` = the former `sort_values("parent_id")` ordering)
 * `c07.file  <options> | <skeleton> | <impl node map old>new,…> | <file>` → the Lean parser on the real bytes + checkers;
   option `hdrtext=none|c:<code points>` carries the `header=` string: `textok` (bytes = header as the source spells it / the user's
-  string newline-terminated, then `str(k) …` row lines), `hdrok` (every header line `#…` or blank), `dl` (`SwcText.dataLines` of the
+  string, non-comment lines commented, newline-terminated, then `str(k) …` row lines), `hdrok` (every header line `#…` or blank), `dl` (`SwcText.dataLines` of the
   file = the row lines), `hrows`, `norows`, `hdrprops`; `c07.table` also answers `asw` (table as written = model table) and `depthsw`
 * `c07.parse <options> | <file>`                    → `parse=…|ncols=…|valid=…|rows=…|props=…|soma=…|conns=…|nhdr=…`
 * `c07.sanitised <options> | <file>`                → rows after `sanitise_nodes` (same parser as `c07.parse`)
+* `c07.idbits <precision> <lo> <hi>`                → integer width `read_swc` gives the ID columns (`idBits`)
 * `c07.depths id:parent id:parent …`                → `_node_depths` as written (`nodeDepthsW`), comma separated
 * `c07.fmtcheck <fmt> | <filename> | name=cp,cp;…`  → `1`/`0`: the checker `fmtConsistentB` on the values navis extracted (code points)
 * `c07.fmt <fmt> | <filename>`                      → `file:str=<name>;name:str=<…>;…` or `NOMATCH`
@@ -392,7 +393,7 @@ def run (cmd rest : String) : Option String :=
       let metaWritten := (metaProps o.wm sk).isSome
       let (hlText, textHdrOK) : List (List Char) × Bool := match o.hdr with
         | some h =>
-          let hl := SwcText.lines (SwcText.terminate h)
+          let hl := SwcText.lines (SwcText.headerText h)
           (hl, raw.take hl.length == hl)
         | none =>
           let pats := (Gen.Swc.genericHeaderLines.zip Gen.Swc.genericHeaderGates).filterMap fun (l, g) =>
@@ -418,6 +419,11 @@ def run (cmd rest : String) : Option String :=
         | _, none => "mapok=1|agree=0"
       pure (base ++ s!"|hdr={b01 hdrOK}|textok={b01 textok}|hdrok={b01 hdrok}|dl={b01 dl}|hrows={b01 hrows}|norows={b01 (noRows hdrModel)}" ++
         s!"|hdrprops={showProps ((metaOf hdrModel).getD [])}|cond={b01 (condB sk.nodes)}|wf={b01 (wfB (forest sk.nodes))}|" ++ agree)
+    | _ => none
+  | "idbits" =>
+    -- `<precision> <lo> <hi>` → the integer width of the ID columns
+    match (words rest).map String.toInt? with
+    | [some p, some lo, some hi] => some (toString (idBits p.toNat lo hi))
     | _ => none
   | "depths" =>
     -- `_node_depths(ids, parents)` as written, on any table (`id:parent` tokens; cycles / dangling parents allowed)
